@@ -110,3 +110,42 @@ Proof.
   assert (step_of step <> 0) by lia.
   split; [reflexivity|]. split; [apply py_slice_incl; assumption|apply py_slice_length_le; assumption].
 Qed.
+
+(* ---- subscripts ---- *)
+Lemma py_index_some_iff l key :
+  (exists x, py_index l key = Some x) <-> - lenZ l <= key < lenZ l.
+Proof.
+  unfold py_index. cbv zeta. split.
+  - intros [x Hx]. destruct (key <? 0) eqn:E0;
+      destruct ((0 <=? _) && (_ <? lenZ l)) eqn:E1; try discriminate; lia.
+  - intros Hr. destruct (key <? 0) eqn:E0.
+    + replace ((0 <=? key + lenZ l) && (key + lenZ l <? lenZ l)) with true by lia.
+      destruct (nth_error l (Z.to_nat (key + lenZ l))) eqn:En; [eexists; reflexivity|].
+      apply nth_error_None in En. unfold lenZ in *. lia.
+    + replace ((0 <=? key) && (key <? lenZ l)) with true by lia.
+      destruct (nth_error l (Z.to_nat key)) eqn:En; [eexists; reflexivity|].
+      apply nth_error_None in En. unfold lenZ in *. lia.
+Qed.
+
+(* a subscript is defined exactly for -len <= key < len, yields an element of the container, and a
+   negative key counts from the end *)
+Lemma model_index_laws k items key : lenZ items <= i64_max ->
+  ((exists x, model_index k items key = Some x) <-> - lenZ items <= key < lenZ items) /\
+  (forall x, model_index k items key = Some x -> In x items) /\
+  (- lenZ items <= key < 0 -> model_index k items key = model_index k items (key + lenZ items)).
+Proof.
+  intros Hl. rewrite !subscript_python_proof.
+  assert (H0 : 0 <= lenZ items) by (unfold lenZ; lia).
+  split; [|split].
+  - destruct (in_i64 key) eqn:Ei.
+    + apply py_index_some_iff.
+    + split; [intros [x Hx]; discriminate|].
+      intros Hr. unfold in_i64, i64_min, i64_max in *. lia.
+  - intros x. destruct (in_i64 key); [|discriminate].
+    unfold py_index. cbv zeta. destruct (_ && _); [|discriminate]. apply nth_error_In.
+  - intros Hr.
+    replace (in_i64 key) with true by (unfold in_i64, i64_min, i64_max in *; lia).
+    replace (in_i64 (key + lenZ items)) with true by (unfold in_i64, i64_min, i64_max in *; lia).
+    unfold py_index. cbv zeta.
+    replace (key <? 0) with true by lia. replace (key + lenZ items <? 0) with false by lia. reflexivity.
+Qed.
